@@ -139,7 +139,12 @@ func runC12Refresh(x *Exec, s *AsyncScn) {
 	}
 	cfg := spec.Render()
 	var err error
-	pv, st := call(func() { err = log.Refresh(cfg) })
+	var pv any
+	var st string
+	if !x.do("refresh", func() { pv, st = call(func() { err = log.Refresh(cfg) }) }) {
+		o.violate("refresh-blocked", "C12/refresh-blocked", "Refresh did not return: %v", x.clientsStuck())
+		return
+	}
 	if pv != nil {
 		o.violate("refresh-panic", "C12/refresh-panic/"+s.Kind+"/"+panicSite(st), "Refresh panicked for a named %s logger: %v", s.Kind, pv)
 		return
@@ -149,8 +154,7 @@ func runC12Refresh(x *Exec, s *AsyncScn) {
 			o.violate("unconfigured-handle-accepted", "C12/unconfigured-handle-accepted", "a handle was requested for logger %q which is not configured, yet Refresh succeeded", "nosuch")
 		}
 		o.Reached = true
-		pv, _ := call(log.Destroy)
-		_ = pv
+		x.do("destroy", func() { call(log.Destroy) })
 		return
 	}
 	if err != nil {
